@@ -9,7 +9,7 @@ from ..core import Failure
 from ..model import first_diff
 
 ID = "C08"
-BUDGET = {"quick": 1000, "thorough": 4000}
+BUDGET = {"quick": 1000, "thorough": 8000}
 TECHNIQUE = ("registry enumeration x Hypothesis-generated valid arguments: differential between the numpoly / numpy / "
              "operator / method / ufunc.reduce|accumulate spellings; exhaustive enumeration of the overridable numpy "
              "API (functions, ufuncs, ufunc methods) with call templates vs the predicate 'raises FeatureNotSupported'")
